@@ -596,7 +596,8 @@ def profile(name):
         p['jobacts'] = name in ('C07', 'C11')
         p['jobs'] = [{'reqs': [(0, 1)], 'check': [0]}, {'reqs': [(0, 0)], 'check': []}, {'reqs': [(0, 1), (1, 3)], 'check': [0]},
                      {'reqs': [(0, 1), (1, 1)], 'check': [0, 1]}, {'reqs': [(1, 0), (2, 3)], 'check': [1]}, {'reqs': [(0, 1)], 'check': []},
-                     {'reqs': [(1, 1), (0, 1)], 'check': [1]}, {'reqs': [(2, 0), (4, 3)], 'check': [2]}]
+                     {'reqs': [(1, 1), (0, 1)], 'check': [1]}, {'reqs': [(2, 0), (4, 3)], 'check': [2]},
+                     {'reqs': [(0, 1), (1, 2)], 'check': []}]      # writes an OPTIONAL component: its stamp must move too
         if name == 'C04':
             p['jobs'] = [{'reqs': [(0, 1)], 'check': []}, {'reqs': [(0, 0), (1, 3)], 'check': []}, {'reqs': [(0, 1), (2, 1)], 'check': []},
                          {'reqs': [(0, 1)], 'check': [0]}, {'reqs': [(1, 0), (0, 2)], 'check': [1]}]
